@@ -44,13 +44,15 @@ C06_EmptyText == ToText(EmptyFn) = [ok |-> TRUE, s |-> <<>>]
 
 \* ---- spellings of the text inside a PURL: entry order x case of algorithm / hex
 SpellEntry(e, up) == (IF up THEN AUpperS(e[1]) ELSE e[1]) \o <<COLON>> \o (IF up THEN AUpperS(e[2]) ELSE e[2])
-RECURSIVE SpellEnum(_, _)
-SpellEnum(e, up) == IF e = <<>> THEN <<>> ELSE SpellEntry(e[1], up) \o (IF Len(e) > 1 THEN <<COMMA>> ELSE <<>>) \o SpellEnum(Tail(e), ~up)
+\* alt = TRUE alternates the letter case from entry to entry, alt = FALSE keeps it: all-lower-case mis-ordered texts
+\* ("a1:00,a:0a" - already canonical but for the order) exist only with alt = FALSE (seeded C12-m10 was missed without it)
+RECURSIVE SpellEnum(_, _, _)
+SpellEnum(e, up, alt) == IF e = <<>> THEN <<>> ELSE SpellEntry(e[1], up) \o (IF Len(e) > 1 THEN <<COMMA>> ELSE <<>>) \o SpellEnum(Tail(e), IF alt THEN ~up ELSE up, alt)
 AsciiAlgs == \A k \in DOMAIN algs : IsAscii(k) /\ k # <<>>
 PurlOf(spelling) == PKG \o <<116,47,110,63,67,104,101,99,107,83,117,109,61>> \o spelling      \* pkg:t/n?CheckSum=
 EmitSpellings == (Small /\ WellFormed /\ DOMAIN algs # {}) =>
-     \A e \in Enumerations(algs) : \A up \in BOOLEAN :
-        LET s == PurlOf(SpellEnum(e, up)) IN
+     \A e \in Enumerations(algs) : \A up \in BOOLEAN : \A alt \in BOOLEAN :
+        LET s == PurlOf(SpellEnum(e, up, alt)) IN
         /\ Agrees(ParseF(s, Generic, LowerTab), Judge(s, Generic, LowerTab))
         /\ ParseF(s, Generic, LowerTab).ok /\ QGet(ParseF(s, Generic, LowerTab).v.quals, CHECKSUM) = ToText(algs).s
         /\ PrintT(<<"CASE", ToJson([k |-> "parse", s |-> s, gj |-> Judge(s, Generic, LowerTab), go |-> Outcome(ParseF(s, Generic, LowerTab)),
